@@ -263,9 +263,13 @@ Qed.
 
 (** ** First component of the relative path *)
 
-Lemma relative_shape a b :
+Lemma relative_shape_full a b :
   abs_ok a = true -> abs_ok b = true ->
-  exists k y, relative a b = Some (build_result (repeat Par k ++ map Name y)).
+  exists c x y,
+    pop (normalize a) = Root :: map Name (c ++ x) /\
+    normalize b = Root :: map Name (c ++ y) /\
+    relative a b = Some (build_result (repeat Par (length x) ++ map Name y)) /\
+    (x = [] \/ y = [] \/ hd_error x <> hd_error y).
 Proof.
   intros Ha Hb.
   destruct a as [|ra ta]; [discriminate|]. destruct ra; try discriminate.
@@ -281,8 +285,35 @@ Proof.
       change (Root :: map Name l ++ [Name n]) with ((Root :: map Name l) ++ [Name n]).
       apply pop_snoc_name. }
   destruct Hpop as (as'' & ->). cbn [strip_common comp_eqb].
-  destruct (strip_common_names as'' bs) as (c & x & y & -> & -> & E & _).
-  rewrite E, reverse_from_names. eauto.
+  destruct (strip_common_names as'' bs) as (c & x & y & -> & -> & E & Hd).
+  rewrite E, reverse_from_names. exists c, x, y. auto.
+Qed.
+
+Lemma relative_shape a b :
+  abs_ok a = true -> abs_ok b = true ->
+  exists k y, relative a b = Some (build_result (repeat Par k ++ map Name y)).
+Proof.
+  intros Ha Hb. destruct (relative_shape_full a b Ha Hb) as (c & x & y & _ & _ & E & _). eauto.
+Qed.
+
+Lemma map_Name_inj x y : map Name x = map Name y -> x = y.
+Proof.
+  revert y; induction x as [|a x IH]; intros [|b y] H; cbn in H; try discriminate; auto.
+  injection H as -> H. f_equal; auto.
+Qed.
+
+(** the relative path is empty exactly when [b] is the directory that contains [a] *)
+Lemma relative_empty_iff a b :
+  abs_ok a = true -> abs_ok b = true ->
+  (relative a b = Some [] <-> normalize b = pop (normalize a)).
+Proof.
+  intros Ha Hb. destruct (relative_shape_full a b Ha Hb) as (c & x & y & Hp & Hn & E & Hd).
+  rewrite E, Hp, Hn, build_result_shape. split.
+  - intros H. destruct x as [|n x]; cbn [length] in H.
+    + destruct y; [reflexivity|discriminate].
+    + destruct y; cbn in H; discriminate.
+  - intros H. injection H as H. apply map_Name_inj, app_inv_head in H. subst y.
+    destruct Hd as [->| [->|Hd]]; try reflexivity. congruence.
 Qed.
 
 Lemma relative_starts_dot a b r :
